@@ -275,6 +275,13 @@ def _check_columns(ctx: Ctx) -> tuple[set[str], dict[str, set[str]]]:
             continue  # (a column that never reaches the hash is already reported by hash-consumes)
         domain: list[object] = [True, False] + ([None] if nullable else [])
         cand = [u for u, r in upd_roots if r == {col} and u.args]
+        shared = False
+        if not cand:
+            # one update shared by several flag columns (`for c in (a_col, b_col): h.update(enc(c[i].as_py()))`):
+            # the same encoding expression applies to each of them, so it is evaluated over this column's domain
+            cand = [u for u, r in upd_roots if col in r and u.args and r <= set(ftypes) and all("bool" in ftypes[x][0] for x in r)
+                    and any((isinstance(n, ast.Call) and last_attr(n) == "as_py") or (isinstance(n, ast.Name) and col in sl.name_roots(n.id, u)) for n in ast.walk(u.args[0]))]
+            shared = bool(cand)
         if not cand:
             raise AnalysisError(f"C39: encoding of flag column {col} in the hash is outside the interpreted idiom (conditional expression inside h.update)")
         u = cand[0]
@@ -283,9 +290,9 @@ def _check_columns(ctx: Ctx) -> tuple[set[str], dict[str, set[str]]]:
         for v in domain:
             env: dict[str, object] = {}
             for n in ast.walk(arg):
-                if isinstance(n, ast.Call) and last_attr(n) == "as_py" and sl.roots(n, u) == {col}:
+                if isinstance(n, ast.Call) and last_attr(n) == "as_py" and (sl.roots(n, u) == {col} or (shared and col in sl.roots(n, u))):
                     env[txt(n)] = v
-                elif isinstance(n, ast.Name) and sl.name_roots(n.id, u) == {col}:
+                elif isinstance(n, ast.Name) and (sl.name_roots(n.id, u) == {col} or (shared and col in sl.name_roots(n.id, u))):
                     env[n.id] = v
             images.append(mini_eval(arg, env))
         distinct = len({repr(x) for x in images}) == len(domain) and all(isinstance(x, (bytes, str)) for x in images)
